@@ -456,6 +456,16 @@ def token_codec(ctx, rr):
             i_mv = first_idx(r, lambda e: e.kind == 'call' and e.name == 'read_child')
             if i_aug is None or i_aug > i_mv:
                 rr.fail(ctx.finding('R-TOKEN-CODEC', fp, loops[0], 'following a child digit does not extend the LRU with the parent stem before moving'))
+            else:
+                # ... with the stem of the node the walk stands on NOW (read at that moment), not one remembered from an earlier digit: a
+                # sibling move in between changes the node
+                aug_ = r.events[i_aug]
+                txt_ = (aug_.text or '')
+                if '.stem()' not in txt_ and not any(e.kind == 'call' and e.name == 'stem' for e in r.events[:i_mv]):
+                    rr.ob(ctx.where(fp, loops[0]), 'a child digit extends the resume LRU by the current stem of the walking node', ok=False)
+                    rr.fail(ctx.finding('R-TOKEN-CODEC', fp, aug_.node if getattr(aug_, 'node', None) is not None else loops[0], 'following a child digit extends the LRU by a stem remembered '
+                                        'from an earlier step (`%s`), not by the stem of the node reached after the sibling moves: the resume LRU of a path that goes sibling, then child '
+                                        'is wrong and pages are repeated or skipped on resume' % txt_[:40], stmt='follow_path stale stem'))
         elif any(e.kind == 'aug' for e in r.events):
             rr.fail(ctx.finding('R-TOKEN-CODEC', fp, loops[0], 'following a sibling digit extends the LRU'))
     full = dict(reader)
@@ -908,6 +918,13 @@ def filter_agree(ctx, rr):
                     or (e.kind == 'call' and e.name in ('append', 'weighted_link_nodes_iter'))]
             if used and not (isp is True and sw is True):
                 bad.append((r, used[0], 'a node is counted / its links are used although it is not a page with a source webentity (is_page=%s, source webentity=%s)' % (isp, sw)))
+            # a page that resolves to a webentity and has links in the requested direction contributes them: its link head is used
+            # (recorded for the second pass, or walked) whatever else is true of it
+            hl = [v_ for k_, v_ in r.val.items() if '.has_links(' in base(k_)]
+            hl = hl[-1] if hl else None
+            uses_links = [e for e in r.events if e.kind == 'call' and e.name in ('append', 'weighted_link_nodes_iter')]
+            if isp is True and sw is True and hl is True and not uses_links and r.outcome in ('continue', 'fall', 'again'):
+                bad.append((r, None, 'a page that resolves to a webentity and has links is passed over (an extra condition drops its whole link list from the network)'))
             tallies = [e for e in r.events if e.kind == 'store' and 'pages_' in (e.name or '')]
             if isp is True and sw is True and not tallies and r.outcome in ('continue', 'fall', 'again') and has_tally:
                 bad.append((r, None, 'a page that resolves to a webentity is not tallied (an extra condition skips it before the page counters)'))
